@@ -306,6 +306,17 @@ func extStringsHasSuffix(fr *frame, args []value) value {
 		if n := len(ps); n > 0 && ps[n-1].Kind == PLit && len(ps[n-1].Lit) >= len(fs) {
 			return strings.HasSuffix(ps[n-1].Lit, fs)
 		}
+		// an identifier-coded atom or a decimal number ends in an identifier
+		// character / digit: it cannot end with a suffix whose last byte is
+		// neither
+		if n := len(ps); n > 0 && len(fs) > 0 && (ps[n-1].Kind == PCode || ps[n-1].Kind == PInt) && !identBodyRe.MatchString(fs[len(fs)-1:]) {
+			return false
+		}
+		// an identifier-coded atom (not an enumeration of fixed tokens) contains
+		// identifier characters only
+		if n := len(ps); n > 0 && ps[n-1].Kind == PCode && !strings.HasPrefix(ps[n-1].Lit, "cT_") && !identBodyRe.MatchString(fs) {
+			return false
+		}
 	}
 	return SymBool{T: fmt.Sprintf("(str.suffixof %s %s)", StrTerm(suf), StrTerm(s))}
 }
